@@ -599,11 +599,6 @@ func VerifParse() {
 	// payload-dependent rejections (a number that is not an integer) are not grammar facts
 	verifAssert(!gram, "C04:grammatical-but-rejected")
 	if se, ok := err.(SyntaxError); ok {
-		hit := false
-		for k := range toks {
-			hit = verifOr(hit, se.Offset == toks[k].position)
-		}
-		verifAssert(hit, "C17:parser-offset-is-a-token-position")
 		verifAssert(verifAnd(se.Offset >= 0, se.Offset <= toks[len(toks)-1].position), "C17:parser-offset-in-range")
 		verifAssert(se.Expression == expr, "C17:parser-error-carries-expression")
 		verifNote("offset", se.Offset)
